@@ -17,6 +17,7 @@ struct Frame {
   std::map<const BasicBlock *, int> visits;
   std::map<const Value *, unsigned> ver;            // definition counter per SSA value (re-execution in loops)
   std::map<std::tuple<unsigned, const Value *, const Value *>, std::tuple<const Value *, unsigned, unsigned, unsigned>> cse;   // (opc,a,b) -> (inst, ver a, ver b, ver inst)
+  std::map<const BasicBlock *, int64_t> loopEntryForks;   // header -> S.nforks when the loop was entered from outside
   std::map<const BasicBlock *, int64_t> loopEntry;   // header -> S.steps when the loop was entered from outside
   std::map<const BasicBlock *, int> forks;          // how often the terminator of this block was undecided
   std::map<const BasicBlock *, std::pair<std::vector<Val>, uint64_t>> snaps;   // header -> (phi values, memory hash) at last widened arrival
@@ -45,6 +46,7 @@ struct Config {
   int ptrWidenAfter = 600;     // visits of a header before pointer phis are widened
   int64_t fmtForkMax = 4096;   // more snprintf length alternatives than this are merged instead of forked
   int64_t longLoopSteps = 1500000;   // interpretation steps spent inside one loop activation before widening starts
+  int forkyLoop = 96;          // visits after which a loop whose body keeps forking on data is summarised
   int longLoop = 1200;         // visits of one block in one frame after which widening starts regardless of forks
   int frameForkWiden = 0;      // >0: widen at loop headers once a frame has forked more than this often
   bool dedupe = false;         // cross-path state deduplication at merge blocks         // undecided iterations of one branch before widening kicks in
@@ -58,6 +60,8 @@ struct State {
   std::vector<Frame> stack;
   std::vector<Region> regions;
   std::vector<Root> roots;
+  std::map<const Instruction *, int> siteRoots;   // symbolic length roots, one per call site (re-used in loops)
+  std::string errnoAt;         // function:line of the last errno store
   bool errnoSet = false;
   Val errnoVal;
   std::vector<Alarm> alarms;
@@ -66,6 +70,7 @@ struct State {
   int64_t steps = 0;
   bool aborted = false;
   std::string abortMsg;
+  int64_t nforks = 0;          // forks taken on this path so far
   int fresh = 0;               // remaining dedupe checks after the last fork
   bool dedup = false;          // path ended because an identical state was already explored
   bool wroteReport = false;   // any write into the report region since entry (besides first token)
@@ -74,6 +79,11 @@ struct State {
 extern Module *M;
 extern const DataLayout *DLp;
 extern Config CFG;
+
+inline void addEvent(State &S, const std::string &e) {
+  for (auto &x : S.events) if (x == e) return;
+  S.events.push_back(e);
+}
 
 inline unsigned lineOf(const Instruction *I) { return I && I->getDebugLoc() ? I->getDebugLoc().getLine() : 0; }
 
